@@ -51,6 +51,9 @@ CLAIMED = {
  "C13": ("lattice", "bounded-exhaustive enumeration (full product of signature methods x key types/sizes x message kinds x relay states x endpoint forms x request options) with independent signature verification under the certificate from the published metadata",
          "For each of 9 method URIs x 7 keys x 7 message kinds x relay states x endpoint with/without query x request options the real constructor is called; a method that does not fit the key (or is unknown) must yield an error and no message; otherwise the detached redirect signature must verify over exactly the emitted SAMLRequest..SigAlg octets with crypto/rsa / crypto/ecdsa, and XML messages must carry exactly one enveloped signature verifying under a fresh context rooted in the certificate re-parsed from the SP's metadata, with the configured method.",
          "DESIGN.md §3 C13", TRUST),
+ "C14": ("lattice", "bounded-exhaustive enumeration of hostile strings (<=2 tokens quick, <=3 thorough) in every interpolated position of the five emitted forms, tokenised by an HTML5 tokenizer, and the full product of schemes x bindings x attributes x endpoint-bearing elements x parsers for metadata",
+         "Every string over a 30-token HTML/JS/URL metacharacter alphabet is placed in the action URL and RelayState positions of the SP request / logout forms, the IdP response form and the bundled IdP login form; the emitted page must tokenise to exactly the template's tag sequence and attribute names, carry the string verbatim in its hidden field and never expose a script-scheme action; about 14,800 metadata documents (22 location schemes x 7 bindings x Location/ResponseLocation x 16 endpoint slots x EntityDescriptor/EntitiesDescriptor) go through xml.Unmarshal, samlsp.ParseMetadata and samlidp PUT: surviving locations of known bindings must be http(s), of unknown bindings blank.",
+         "DESIGN.md §3 C14", "golang.org/x/net/html tokenizer stands in for browsers; hidden-field values compared modulo what HTML itself does to CR/NUL"),
  "C15": ("lattice", "exhaustive sub-range sweeps (dense nanosecond ranges, digit-sparse values, carries), bounded grammar enumeration of duration strings vs a reference recogniser, instant lattice, 2^14 metadata shapes with a fixed-point oracle",
          "Durations: every value of dense and digit-sparse sub-ranges (thorough: all 1e9 sub-second values) x carries x sign round-trips exactly; every duration string of <=5 tokens agrees with a hand-written xsd:duration recogniser; instants on the year/date/time/rounding-edge/zone lattice round-trip to the ms-rounded UTC instant and documented lexical forms are accepted, others rejected; every library-generated SP/IdP metadata document and 2^14 generated EntityDescriptor shapes (plus EntitiesDescriptor by value/pointer) re-parse to an equal value and reach a fixed point after one generation.",
          "DESIGN.md §3 C15", "encoding/xml; the reference xsd:duration recogniser in checks/c15.go; values outside the enumerated sub-ranges are not covered"),
